@@ -243,7 +243,23 @@ pub fn rebuild_from_snap(s: &Snap) -> Value {
 /// A root context instantiated from a recipe, plus the snapshot of each variable at build time.
 pub struct BuiltRoot {
     pub ctx: Context<'static>,
-    pub expect: BTreeMap<String, Snap>,
+    /// what looking up every name of the pool gave right after the context was built: the
+    /// baseline every later observation of this context is compared with (model-free: if lookup
+    /// itself is broken in the tree under test, it is broken the same way before and after)
+    pub expect: Vec<Outcome>,
+}
+
+/// Looks up every name of the pool in `ctx`.
+pub fn observe(ctx: &Context) -> Vec<Outcome> {
+    crate::run::NAME_POOL.iter().map(|n| Outcome::of(&ctx.get_variable(*n))).collect()
+}
+
+pub fn first_difference(a: &[Outcome], b: &[Outcome]) -> Option<usize> {
+    (0..a.len().min(b.len())).find(|i| a[*i] != b[*i])
+}
+
+pub fn digest_obs(o: &[Outcome]) -> u64 {
+    crate::util::digest_words(&o.iter().map(|x| x.digest()).collect::<Vec<_>>())
 }
 
 pub fn build_root(recipe: &Recipe) -> BuiltRoot {
@@ -254,11 +270,10 @@ pub fn build_root(recipe: &Recipe) -> BuiltRoot {
         let v = build_value(s, &shared);
         shared.push(v);
     }
-    let mut expect = BTreeMap::new();
     for (name, spec) in &recipe.vars {
         let v = build_value(spec, &shared);
-        expect.insert(name.clone(), snap(&v));
         ctx.add_variable_from_value(name.clone(), v);
     }
+    let expect = observe(&ctx);
     BuiltRoot { ctx, expect }
 }
